@@ -115,6 +115,7 @@ def model_binop(a, b, opname, sampling='min', method='linear', fill=0):
 
 
 class ArithHooks(Hooks):
+    prefix = 'C13'
     def __init__(self):
         self.pre = None
         self.snap = {}
@@ -618,6 +619,8 @@ class SpectrumArithScenario(Scenario):
             ok, why = same_physical(mx, my, ends=ends)
             return True if ok else ('value', why)
         if isinstance(x, np.ndarray) and isinstance(y, np.ndarray):
+            if x.dtype == object or y.dtype == object:
+                return None     # not a numeric result at all: reported by the per-step oracle
             ok = x.shape == y.shape and np.allclose(x, y, rtol=1e-9, atol=1e-300, equal_nan=True)
             return True if ok else ('value', 'arrays differ')
         return True
